@@ -363,7 +363,7 @@ def _as_load(target):
     return t
 
 
-def run(low, fname, inputs):
+def run(low, fname, inputs, copy=True):
     """inputs: dict param -> value (arrays are copied).  Returns ('ok', result) | ('raise', text) |
     ('oob', text) | ('error', text)"""
     fi = low.funcs[fname]
@@ -372,7 +372,7 @@ def run(low, fname, inputs):
         if nm not in inputs:
             break
         v = inputs[nm]
-        if isinstance(v, np.ndarray):
+        if isinstance(v, np.ndarray) and copy:
             v = v.copy()
         args.append(v)
     it = Interp(low)
